@@ -253,6 +253,32 @@ def r4_uniform(rep, facts):
     rep.check(R, 'count', n >= 4, f'{n} span-carrying deserializers', f'only {n} explicit deserialize_struct impls in toml_edit::de')
 
 
+def r4b_newtype_transparent(rep, facts):
+    R = rep.rule('C14/R4b', 'a newtype around Spanned<T> decodes like Spanned<T>: every span-carrying deserializer of toml_edit (value, key, table) hands ITSELF to '
+                 'visit_newtype_struct, so that the inner deserialize_struct still sees the span source (a plain string / map deserializer in its place loses the span '
+                 'and makes the Spanned wrapper fail)', floor=3)
+    n = 0
+    for imp in facts.impls:
+        if imp.get('trait') != DE or not (imp.get('self_ty') or '').startswith('toml_edit::de::') or 'Deserializer<S>' in imp['self_ty']:
+            continue
+        items = {it['name']: it['def'] for it in imp['items']}
+        d = items.get('deserialize_newtype_struct')
+        ds = items.get('deserialize_struct')
+        # only deserializers that answer is_spanned themselves carry a span to lose
+        if not d or not facts.has_body(d) or facts.body(d).get('x') or not ds or not facts.has_body(ds) or \
+                not any(last_seg(c) == 'is_spanned' for x in calls_in(facts.body(ds)['body']) for c in callee_all(x)):
+            continue
+        b = facts.body(d)
+        n += 1
+        selfname = [p_['name'] for p_ in b.get('params', []) if p_.get('k') == 'p_bind'][0]
+        calls = [x for x in walk(b['body']) if x.get('k') == 'mcall' and x.get('name') == 'visit_newtype_struct' and x.get('args')]
+        ok = len(calls) == 1 and peel(calls[0]['args'][0]).get('k') == 'path' and peel(calls[0]['args'][0]).get('path') == selfname
+        what = 'self' if ok else (f'{len(calls)} calls' if len(calls) != 1 else 'an expression other than `self`')
+        rep.check(R, imp['self_ty'], ok, 'visit_newtype_struct(self)', f'`{imp["self_ty"]}::deserialize_newtype_struct` hands {what} to visit_newtype_struct: the span source is lost behind a '
+                  f'newtype, so `struct N(Spanned<T>)` fails or gets no range where `Spanned<T>` works', facts.loc(b))
+    rep.check(R, 'count', n >= 3, f'{n} span-carrying deserializers with an explicit deserialize_newtype_struct', f'only {n} found (value, key and table deserializers expected)')
+
+
 def r6_attach(rep, facts):
     R = rep.rule('C14/R6', 'span attachment covers every value kind: apply_raw has an arm for each Value variant storing the span it was given; '
                  'simple_key attaches its own with_span() range', floor=8)
@@ -317,6 +343,7 @@ def rules(rep, facts):
     if 'serde' in feats and 'serde_spanned' in facts.crates:
         r3_bridge(rep, facts)
         r4_uniform(rep, facts)
+        r4b_newtype_transparent(rep, facts)
         from .rules_c15 import r1_span_attached
         r1_span_attached(rep, facts)
         rep.relabel('C15/R1', 'C14/R7', 'error locations delivered through serde are the innermost value\'s span: ')
